@@ -3405,9 +3405,16 @@ def implicit_dict_keys_values_items(source: str) -> str:
     return source
 
 
+def _reads_underscore(root: ast.AST) -> bool:
+    """Whether the name "_" is read anywhere, so that it cannot be assumed to be a throwaway."""
+    return any(name.id == "_" for name in core.walk(root, ast.Name(ctx=ast.Load)))
+
+
 @processing.fix
 def redundant_enumerate(source: str) -> str:
     root = core.parse(source)
+    if _reads_underscore(root):
+        return
     iter_template = ast.Call(
         func=ast.Name(id="enumerate"), args=[core.Wildcard("iter", object)], keywords=[]
     )
